@@ -148,7 +148,7 @@ var c03Chain = &c03Universe{
 	desc: "root->c03-g->{c03-p->c03-a, c03-d}",
 	quotas: []c03QuotaDef{
 		{name: "c03-g", parent: -1, isParent: true, lend: true,
-			maxLevels: []c03Vec{c03V(3, 3), c03V(5, 5)}, maxStart: 1, minLevels: []c03Vec{c03V(2, 3)}},
+			maxLevels: []c03Vec{c03V(3, 3), c03V(5, 5)}, maxStart: 0, minLevels: []c03Vec{c03V(2, 3)}},
 		{name: "c03-p", parent: 0, isParent: true, lend: true,
 			maxLevels: []c03Vec{c03V(4, 4), c03V(6, 6)}, maxStart: 1, minLevels: []c03Vec{c03V(1, 2)}},
 		{name: "c03-a", parent: 1, lend: true, maxLevels: []c03Vec{c03V(4, 4)}, minLevels: []c03Vec{c03V(1, 2)}},
@@ -198,8 +198,8 @@ type c03Cfg struct {
 	res         *mc.Result
 	newPlugin   func(cfg *c03Cfg) *Plugin
 	withSync    bool // alphabet contains the controller's runtime sync events
-	depth       int // depth of the first pass: chosen so that it completes within its share on a busy machine
-	deepDepth   int // > depth: second, opportunistic pass with the time the first pass left over (0 = none)
+	depth       int // first depth bound that is run
+	maxDepth    int // depth bound aimed at (>= depth); reached by iterative deepening while the time budget allows
 	weight      int // share of the unit's time budget
 	memo        *c03Memo
 }
@@ -984,41 +984,97 @@ func c03NewCfg(prefix string, u *c03Universe, runtime, checkParent, withSync boo
 //   - "sync": the tree universe plus the three sync events on the runtime-quota configurations, with the smaller
 //     pod set, because the syncs multiply the number of distinct (stale / refreshed) manager states.
 //
-// Time: the engine discards a BFS level the deadline interrupts, so a too ambitious depth wastes its whole
-// budget. Every part therefore first runs to a depth that completes reliably (pass 1, budget shared by weight,
-// unused time handed on); in the thorough tier the time left over is then spent on re-running parts one level
-// deeper (pass 2, cheapest first); a deeper run replaces the pass-1 result of its part only if it completed.
+// Time: the engine discards a BFS level the deadline interrupts, so starting a level that cannot be finished
+// wastes the whole remaining budget. The thorough tier therefore deepens iteratively (c03Deepen): a part is run
+// to its first depth bound, and re-run one level deeper only while the measured growth predicts that the deeper
+// run fits into the time the part has left; unused time is handed on to the next parts, and what is left at the
+// end is spent on deepening parts further, cheapest first. The result reported for a part is its deepest
+// completed run. The quick tier runs every part once, to a depth that completes in seconds.
 func c03Plan(env *mc.Env) []*c03Cfg {
 	var cfgs []*c03Cfg
-	add := func(c *c03Cfg, deep int) {
-		if env.Thorough() && deep > c.depth {
-			c.deepDepth = deep
+	add := func(c *c03Cfg, max int) {
+		c.maxDepth = c.depth
+		if env.Thorough() && max > c.depth {
+			c.maxDepth = max
 		}
 		cfgs = append(cfgs, c)
 	}
 	// cheap parts first: what they do not use is handed on to the expensive ones
 	for _, rt := range []bool{false, true} {
 		for _, cp := range []bool{false, true} {
-			d := env.Pick(5, 7)
-			if rt && env.Thorough() {
-				d = 6
+			w := 1
+			if rt {
+				w = 2
 			}
-			add(c03NewCfg("chain", c03Chain, rt, cp, rt && env.Thorough(), 4, d, 1+env.Pick(0, 1)), 7)
+			add(c03NewCfg("chain", c03Chain, rt, cp, rt && env.Thorough(), 4, 5, w), 7)
 		}
 	}
 	for _, cp := range []bool{false, true} {
-		add(c03NewCfg("hist", c03Tree, false, cp, false, env.Pick(6, 7), env.Pick(5, 6), 4), 7)
+		add(c03NewCfg("hist", c03Tree, false, cp, false, env.Pick(6, 7), 5, 5), 7)
 	}
 	if env.Thorough() {
-		add(c03NewCfg("sync", c03Tree, true, false, true, 6, 5, 5), 6)
-		add(c03NewCfg("sync", c03Tree, true, true, true, 6, 5, 5), 6)
+		add(c03NewCfg("sync", c03Tree, true, false, true, 6, 4, 4), 6)
+		add(c03NewCfg("sync", c03Tree, true, true, true, 6, 4, 4), 6)
 	} else {
 		add(c03NewCfg("sync", c03Tree, true, true, true, 6, 4, 4), 0)
 	}
 	for _, cp := range []bool{false, true} {
-		add(c03NewCfg("hist", c03Tree, true, cp, false, env.Pick(6, 7), env.Pick(5, 6), 7), 7)
+		add(c03NewCfg("hist", c03Tree, true, cp, false, env.Pick(6, 7), 5, 8), 7)
 	}
 	return cfgs
+}
+
+// c03Progress is what is known about a part after its runs so far.
+type c03Progress struct {
+	best      *mc.Result // deepest completed run (or the only run)
+	lastWall  float64    // wall time of the deepest completed run
+	growth    float64    // transitions(depth d) / transitions(depth d-1), measured; 0 = unknown
+	exhausted bool       // maxDepth reached, state space closed, a violation found or a run did not complete
+}
+
+// predict estimates the wall time of a run one level deeper than the best one: the whole BFS is repeated
+// (replay based, nothing is kept between runs) and the new level dominates.
+func (p *c03Progress) predict() time.Duration {
+	g := p.growth
+	if g < 3 {
+		g = 8 // unknown or implausibly small: assume the largest growth seen on these alphabets
+	}
+	return time.Duration(p.lastWall * (g + 1) * 1.25 * float64(time.Second))
+}
+
+// c03Deepen runs cfg to successively larger depth bounds until maxDepth, the budget or the prediction stops it.
+func c03Deepen(env *mc.Env, cfg *c03Cfg, p *c03Progress, budget time.Duration) {
+	start := time.Now()
+	for !p.exhausted {
+		d := cfg.depth
+		if p.best != nil {
+			d = p.best.MaxDepth + 1
+			if need := p.predict(); need > budget-time.Since(start) {
+				fmt.Printf("c03: part %s: depth %d not started (predicted %.0fs, %.0fs left for this part)\n", cfg.part, d, need.Seconds(), (budget - time.Since(start)).Seconds())
+				return
+			}
+		}
+		left := budget - time.Since(start)
+		if left < time.Second {
+			left = time.Second
+		}
+		r := c03RunPart(env, cfg, d, left)
+		switch {
+		case p.best == nil:
+			p.best = r
+		case r.Capped == "" || r.NumViolations() > 0:
+			if p.best.Transitions > 0 {
+				p.growth = float64(r.Transitions) / float64(p.best.Transitions)
+			}
+			p.best = r
+		default:
+			p.best.Diag(fmt.Sprintf("a further run to depth %d did not complete within the time budget (%s); its interrupted level is not counted", d, r.Capped))
+		}
+		p.lastWall = r.WallS
+		if r.Capped != "" || r.NumViolations() > 0 || r.MaxDepth >= cfg.maxDepth || r.MaxDepth < d {
+			p.exhausted = true // r.MaxDepth < d without a cap: the frontier emptied, the state space is closed
+		}
+	}
 }
 
 func c03Assumptions(cfg *c03Cfg) []string {
@@ -1074,7 +1130,10 @@ type c03Replay struct {
 func TestVerifC03Hist(t *testing.T) {
 	// the explorers allocate a fresh manager per transition; trade memory (small here: only state hashes are kept)
 	// for fewer collections
-	debug.SetGCPercent(400)
+	if os.Getenv("GOGC") == "" {
+		debug.SetGCPercent(800)
+		debug.SetMemoryLimit(4 << 30)
+	}
 	env := mc.LoadEnv()
 	cfgs := c03Plan(env)
 	if env.Replay != "" {
@@ -1118,38 +1177,41 @@ func TestVerifC03Hist(t *testing.T) {
 		}
 		return time.Second
 	}
-	// pass 1
-	results := map[string]*mc.Result{}
+	// pass 1: every part within its share of the budget
+	prog := map[string]*c03Progress{}
 	left := 0
 	for _, cfg := range run {
 		left += cfg.weight
+		prog[cfg.part] = &c03Progress{}
 	}
 	for _, cfg := range run {
-		results[cfg.part] = c03RunPart(env, cfg, cfg.depth, remaining()*time.Duration(cfg.weight)/time.Duration(left))
+		c03Deepen(env, cfg, prog[cfg.part], remaining()*time.Duration(cfg.weight)/time.Duration(left))
 		left -= cfg.weight
 	}
-	// pass 2: one level deeper with whatever time is left, cheapest (fewest pass-1 states) first
-	var deep []*c03Cfg
-	for _, cfg := range run {
-		if r := results[cfg.part]; cfg.deepDepth > cfg.depth && r.Capped == "" && r.NumViolations() == 0 {
-			deep = append(deep, cfg)
-			left += cfg.weight
-		}
-	}
-	sort.SliceStable(deep, func(i, j int) bool { return results[deep[i].part].States < results[deep[j].part].States })
-	for _, cfg := range deep {
-		if remaining() > 20*time.Second {
-			r := c03RunPart(env, cfg, cfg.deepDepth, remaining()*time.Duration(cfg.weight)/time.Duration(left))
-			if r.MaxDepth > results[cfg.part].MaxDepth || r.NumViolations() > 0 {
-				results[cfg.part] = r
-			} else {
-				results[cfg.part].Diag(fmt.Sprintf("a second pass to depth %d did not complete within the remaining time budget (%s); its partial level is not counted", cfg.deepDepth, r.Capped))
+	// pass 2: spend what is left on deepening further, cheapest predicted run first
+	for {
+		var next *c03Cfg
+		for _, cfg := range run {
+			p := prog[cfg.part]
+			if !p.exhausted && p.predict() < remaining() && (next == nil || p.predict() < prog[next.part].predict()) {
+				next = cfg
 			}
 		}
-		left -= cfg.weight
+		if next == nil {
+			break
+		}
+		before := prog[next.part].best
+		b := prog[next.part].predict() * 2
+		if b > remaining() {
+			b = remaining()
+		}
+		c03Deepen(env, next, prog[next.part], b)
+		if prog[next.part].best == before {
+			prog[next.part].exhausted = true
+		}
 	}
 	for _, cfg := range run {
-		env.Emit(results[cfg.part])
+		env.Emit(prog[cfg.part].best)
 	}
 }
 
